@@ -19,7 +19,7 @@ RULE = ("evaluations = assignments computed by compiled experiments over determi
         "(independence); distinct_nontrivial = number of distinct configurations tested whose population hit >= 2 groups")  # fmt: skip
 
 ALPHA = 1e-9
-FAMILIES = vals.FAMILIES + ["two-field", "three-field"]
+FAMILIES = vals.FAMILIES + ["two-field", "three-field", "long-key"]
 OFFSETS = [0, 10**6, 10**9, 2**31]
 SALTS = [None, "", "a", "b", "exp_2024"]
 VECTORS = {"11": ["1", "1"], "123": ["1", "2", "3"], "19": ["1", "9"], "hh": ["0.5", "0.5"], "ten": ["1"] * 10}
@@ -30,6 +30,8 @@ def population(fam, off, m):
         return [{"uid": off + i, "org": ("acme", "globex", "initech")[i % 3]} for i in range(m)]
     if fam == "three-field":
         return [{"uid": f"{off + i:08d}", "org": i % 7, "zone": ("eu", "us")[(i // 7) % 2]} for i in range(m)]
+    if fam == "long-key":  # realistic composite ids: a long common prefix, the distinguishing part at the end
+        return [{"uid": "tenant=acme-corporation-emea/workspace=" + "w" * 120 + f"/user={off + i:012d}"} for i in range(m)]
     return [{"uid": vals.id_family(fam, off + i)} for i in range(m)]
 
 
@@ -59,6 +61,7 @@ def _work(units):
         # like a service that keeps many experiments alive: compile ALL of them first, evaluate afterwards
         built = {(vn, s): build_for(fam, s, vn) for vn in vnames for s in salts}
         pop = population(fam, off, m)
+        chain = []
         for vname in vnames:
             v = [float(x) for x in VECTORS[vname]]
             T = sum(v)
@@ -84,6 +87,7 @@ def _work(units):
                                    "why": f"group frequencies inconsistent with the declared weights (p={p:.3g} < {ALPHA})"})  # fmt: skip
                 elif len(acc.samples) < 1:
                     acc.samples.append({"case": {k: case[k] for k in ("family", "offset", "salt", "weights", "n")}, "counts": counts, "chi2": round(x2, 3), "p": p})
+            chain.append((vname, dict(results)))
             keys = [s for s in salts if s in results]
             for i in range(len(keys)):
                 for j in range(i + 1, len(keys)):
@@ -110,6 +114,28 @@ def _work(units):
                         acc.violation({"kind": "stat:dependent", "case": {"family": fam, "offset": off, "salts": [s1, s2], "weights": VECTORS[vname], "n": m,
                                                                            "compiled_together": [list(k) for k in built]},
                                        "observed": {"chi2": x2, "df": df, "p": p}, "why": f"assignments under salts {s1!r} and {s2!r} are not independent (p={p:.3g})"})  # fmt: skip
+        # ONE evaluator recompiled through all these configurations, the whole population evaluated after each
+        # recompile: every assignment must equal the one a fresh evaluator of that configuration gave above
+        ev = None
+        for vname, per_salt in chain:
+            for salt, want in per_salt.items():
+                text = built[(vname, salt)][0]
+                try:
+                    if ev is None:
+                        ev = impl.ExperimentEvaluator(text)
+                    else:
+                        ev.recompile(text)
+                except Exception as e:  # noqa
+                    acc.violation({"kind": "stat:recompile", "case": {"family": fam, "offset": off, "n": m}, "text": text, "observed": f"{type(e).__name__}: {e}"})
+                    continue
+                got = assign(ev, vname, pop)
+                acc.add("evaluations", m)
+                if got != want:
+                    d = sum(1 for a, b in zip(got, want) if a != b)
+                    acc.violation({"kind": "stat:recompile", "case": {"family": fam, "offset": off, "salt": salt, "weights": VECTORS[vname], "n": m,
+                                                                       "compiled_together": [list(k) for k in built]},
+                                   "text": text, "observed": f"{d} of {m} units assigned differently",
+                                   "why": "an evaluator recompiled to this configuration after serving the population under other configurations disagrees with a fresh evaluator"})  # fmt: skip
     return acc.out()
 
 
